@@ -11,6 +11,18 @@ UNIT_MODES = {
     'numtraits_fwd': ['dbg', 'rel'],
     'numtraits_int': ['dbg', 'rel'],
     'numtraits_gcd': ['dbg', 'rel'],
+    'mul': ['dbg', 'rel'],
+    'bits': ['dbg', 'rel'],
+    'shift_ops': ['dbg', 'rel'],
+    'random': ['dbg', 'rel'],
+    'ops_misc': ['dbg', 'rel'],
+    'ops_shr_i': ['dbg', 'rel'],
+    'ops_shl_i': ['dbg', 'rel'],
+    'ops_shr_u': ['dbg', 'rel'],
+    'ops_shl_u': ['dbg', 'rel'],
+    'ops_arith_i': ['dbg', 'rel'],
+    'ops_arith_u': ['dbg', 'rel'],
+    'ops_core': ['dbg', 'rel'],
 }
 
 # property -> verus units owned by the property (dependencies are added automatically) and the
@@ -19,14 +31,26 @@ PROPS = {
     'C01': dict(units=['core_add', 'addsub'], title='add/sub/neg/abs exact in every overflow mode'),
     'C02': dict(units=['mul'], title='multiplication exact'),
     'C03': dict(units=['div', 'sdiv'], title='division and remainder'),
+    'C04': dict(units=['addsub', 'mul', 'div', 'sdiv', 'powlog', 'bits', 'shift_ops', 'cmp2'], title='panics exactly where primitives panic'),
     'C05': dict(units=['shift_bits', 'shift_val', 'shift_rot', 'shift_ops'], title='shifts and rotations'),
+    'C06': dict(units=['bits'], title='bitwise logic, counts, bit manipulation'),
     'C07': dict(units=['cmp', 'cmp2'], title='comparison, equality, hashing'),
     'C08': dict(units=['powlog'], title='powers and logarithms'),
+    'C09': dict(units=['cast', 'xcast'], title='integer casts'),
+    'C10': dict(units=['parse'], title='parsing'),
     'C11': dict(units=['radixout'], title='radix output'),
+    'C13': dict(units=['cast', 'xcast'], title='checked conversions'),
     'C14': dict(units=[], level='model_checking', title='float casts'),
+    'C17': dict(units=['ops_core', 'ops_arith_u', 'ops_arith_i', 'ops_shl_u', 'ops_shr_u', 'ops_shl_i', 'ops_shr_i', 'ops_misc'], title='operator traits agree with inherent methods'),
+    'C19': dict(units=[], level='model_checking', title='num_traits conversions'),
     'C15': dict(units=['slices'], title='slices and endianness'),
     'C16': dict(units=['consts'], title='digit-type independence and constants'),
+    'C20': dict(units=['random'], title='random sampling: range membership and unbiasedness'),
 }
+
+# units instantiated for an ordered PAIR of digit types (target `$D..`, source `$D2..`): their entries
+# exist only in pair instantiations; digit tag 'AxB' (e.g. u64xu32 = BUintD32/BIntD32 -> BUint/BInt)
+PAIR_UNITS = {'xcast'}
 
 QUICK_DIGITS = ['u64', 'u8']
 ALL_DIGITS = ['u64', 'u32', 'u16', 'u8']
@@ -34,3 +58,10 @@ ALL_DIGITS = ['u64', 'u32', 'u16', 'u8']
 
 def unit_modes(unit):
     return UNIT_MODES.get(unit, ['dbg'])
+
+
+def unit_digits(unit, digits):
+    """digit tags for which a unit is instantiated: the digit types, or all ordered pairs of them"""
+    if unit in PAIR_UNITS:
+        return [f'{a}x{b}' for a in digits for b in digits if a != b]
+    return list(digits)
